@@ -331,19 +331,11 @@ func (w *world) doSetIdentity(i int, writer string) {
 // writer's key, changed payload, or a different log id.  Joining from it exercises C06.
 func (w *world) doTamper(src int, oldest bool) {
 	s := w.reps[src]
-	// only entries that are not heads are tampered with: head OBJECTS of the source are merged into the
-	// destination's head map without validation when the destination already holds that hash, and two
-	// objects with one CID but different content cannot come out of a content-addressed store
+	// any entry may be tampered with, heads included: since repair 17 `Join` computes its heads from the
+	// entries it holds, so a forged head object (same hash, other content) can neither replace a checked
+	// entry nor prune a head
 	isHead := map[string]bool{}
-	for _, h := range s.log.RawHeads().Slice() {
-		isHead[h.GetHash().String()] = true
-	}
-	var ents []iface.IPFSLogEntry
-	for _, e := range s.log.GetEntries().Slice() {
-		if !isHead[e.GetHash().String()] {
-			ents = append(ents, e)
-		}
-	}
+	ents := s.log.GetEntries().Slice()
 	if len(ents) == 0 {
 		return
 	}
